@@ -479,6 +479,10 @@ def gen_render_case(rng, exact=None):
             o = rand_op(rng, table, True, True, pools)
             if o[2]["t"] == "node":
                 ops.append(o)
+    # None is a parameter value only where the field is declared Optional; an assignment propagates to every field of
+    # that name below, so a None for a name that is non-optional somewhere in the tree is not a valid parameter tree
+    nonopt = {k for cls in decl().values() for k, tag in cls if not str(tag).startswith("opt")}
+    ops = [o for o in ops if not (isinstance(o[2], dict) and o[2].get("t") == "none" and o[1] in nonopt)]
     case.update({"kw": kw, "ops": ops, "exact": exact,
                  "route": rng.choice(["own", "own", "arg"] if exact else ["own", "arg", "list", "frames"]),
                  "limits": None if rng.random() < 0.7 else [-10, 40, -10, 25],
@@ -560,17 +564,18 @@ def run_render_case(case):
                 dyn = [o for o in sc.obstacles if isinstance(o, DynamicObstacle)]
                 focus = dyn[0] if dyn else None
             own = case["route"] in ("own", "frames")
+            rnd = MPRenderer(draw_params=p if own else None, ax=ax, plot_limits=case.get("limits"), focus_obstacle=focus)
             other = None
             if case["seed"] % 3 == 0:
                 # a second renderer is alive (one per subplot): it has drawn the same scenario with default parameters
-                # and is not rendered before the renderer of the case is done; what it collected is its own business
+                # (after the renderer of the case was constructed) and is not rendered before that one is done; what it
+                # collected is its own business
                 fig2, ax2 = plt.subplots()
                 other = MPRenderer(ax=ax2)
                 try:
                     sc.draw(other)
                 except Exception:  # noqa - not what is judged
                     pass
-            rnd = MPRenderer(draw_params=p if own else None, ax=ax, plot_limits=case.get("limits"), focus_obstacle=focus)
             arg = None if own else p
             stale = None
             if case["route"] == "frames":
